@@ -762,7 +762,7 @@ fn main() {
         let mut r = rng.fork();
         grant_case(&mut r, &mut model, &mut rep, i < 2);
     }
-    for i in 0..args.n(1500, 40000) {
+    for i in 0..args.n(1500, 25000) {
         let mut r = rng.fork();
         stmt_case(&mut r, &mut model, &mut rep, None, i < 3);
     }
